@@ -13,6 +13,7 @@ RULE = ('objects of the six kinds (generators of C01, C05, C07, C09, C11: exhaus
         '{1,2,5,50,1000}, TMs with step budgets {0,1,5,1000}) x all bounds n in {0,..,4} (n <= 3 for grammars and PDAs). Observed: X_words_up_to_n, generate_language, and the set of all words <= n over the alphabet '
         'that the matching acceptance test accepts. Relation: all three equal the proved-exact model enumeration (PDA: when no closure is truncated; otherwise subset of the language decided with a larger budget). '
         'Non-trivial = the enumerated set for the largest n is non-empty and smaller than the set of all words; distinct by object text.')
+RULE += ' Added after the seeded rounds: letter-nondeterministic fan PDAs; objects with unusual state names.'
 CODES = {9: 'generated object invalid (harness)', 1: 'PDA: truncated closure, undecided within the larger budget', 63: 'pda_words_up_to_n raised', 64: 'pda_words_up_to_n contains a word outside the language'}
 for c, k in [(10, 'dfa'), (20, 'nfa'), (30, 'regexp'), (40, 'tm'), (50, 'cfg'), (60, 'pda')]:
     CODES[c] = k + '_words_up_to_n differs from the exact set'
@@ -31,12 +32,12 @@ def gen(rng, tier):
     NS = [0, 1, 2, 3, 4]
     ds = G.all_dfas(1, 'a') + G.all_dfas(2, 'a') + rng.sample(G.all_dfas(2, 'ab'), 30 if quick else 64)
     ds += [G.random_dfa(rng, rng.randint(1, 6), rng.choice(['a', 'ab', 'abc', '', '01', 'a_', 'ε1'])) for _ in range(60 if quick else 1500)]
-    for d in ds:
-        cases.append({'kind': 'dfa', 'X': d, 'ns': NS})
+    for i, d in enumerate(ds):
+        cases.append({'kind': 'dfa', 'X': G.retag(d, rng, allow_empty=True) if i % 7 == 3 and len(d['Q']) <= 6 else d, 'ns': NS})
     ns = rng.sample(G.all_nfas(2, 'a'), 80 if quick else 1024)
     ns += [G.random_nfa(rng, rng.randint(1, 6), rng.choice(['a', 'ab', 'ab', '']), rng.choice(['_', '', 'e']), peps=rng.choice([0.0, 0.3])) for _ in range(80 if quick else 1500)]
-    for n in ns:
-        cases.append({'kind': 'nfa', 'X': n, 'ns': NS})
+    for i, n in enumerate(ns):
+        cases.append({'kind': 'nfa', 'X': G.retag(n, rng, allow_empty=True) if i % 7 == 3 and len(n['Q']) <= 6 else n, 'ns': NS})
     rs = [t for k in range(1, 5) for t in G.re_trees(k, 2)]
     if quick:
         rs = rng.sample(rs, 90)
